@@ -4,10 +4,10 @@ open ElaVerif.Proposal Driver
 open ElaVerif.Deposit (get)
 
 structure DS where
-  P : Params := ⟨0, 0, 0, 0, 0⟩
+  P : Params := ⟨0, 0, 0, 0, 0, 100⟩
   h : Nat := 0
   s : State := ⟨0, 0, 0, []⟩
-  q : List Tx := []
+  q : List (Option Tx) := []   -- queued txs of the open block (reversed); `none` = a tx the model ignores (fund)
   acc : Int := 0
   known : List Nat := []
 
@@ -58,30 +58,36 @@ def stepC29 (d : DS) (toks : List String) : DS × String :=
   | ["reset", stage, used0, crP, pubP, agree, fee, thr] =>
     match int? stage, int? used0, nat? crP, nat? pubP, nat? agree, int? fee, int? thr with
     | some a, some b, some c, some e, some f, some g, some t =>
-      ({ P := ⟨c, e, f, g, t⟩, s := ⟨a, b, b, []⟩ }, "ok")
+      ({ P := ⟨c, e, f, g, t, 100⟩, s := ⟨a, b, b, []⟩ }, "ok")
     | _, _, _, _, _, _, _ => (d, "bad-op")
+  | ["reset", stage, used0, crP, pubP, agree, fee, thr, usedNow] =>   -- CommitteeUsedAmount (snapshot) ≠ CRCCommitteeUsedAmount
+    match int? stage, int? used0, nat? crP, nat? pubP, nat? agree, int? fee, int? thr, int? usedNow with
+    | some a, some b, some c, some e, some f, some g, some t, some u =>
+      ({ P := ⟨c, e, f, g, t, 100⟩, s := ⟨a, u, b, []⟩ }, "ok")
+    | _, _, _, _, _, _, _, _ => (d, "bad-op")
+  | ["fund", _] => ({ d with q := none :: d.q }, "queued")
   | ["begin", h] => match nat? h with
     | some h => ({ d with h := h, q := [], acc := 0 }, "ok")
     | none => (d, "bad-op")
-  | ["end"] => endOf d d.q.reverse
+  | ["end"] => endOf d (d.q.reverse.filterMap id)
   | ["end", perm] =>
     let q := d.q.reverse
-    if perm = "-" then endOf d q else
+    if perm = "-" then endOf d (q.filterMap id) else
     match (perm.splitOn ",").foldr (fun x acc => match nat? x, acc with
         | some i, some l => (match q[i]? with | some tx => some (tx :: l) | none => none)
         | _, _ => none) (some []) with
-    | some q' => endOf d q'
+    | some q' => endOf d (q'.filterMap id)
     | none => (d, "bad-op")
   | ["propose", id, bs] =>
     match nat? id, budgets? bs with
     | some id, some bs =>
       match check d.P d.s d.acc (.propose id bs) with
       | some e => (d, "reject " ++ e)
-      | none => ({ d with q := .propose id bs :: d.q, acc := d.acc + total bs, known := id :: d.known }, "accept")
+      | none => ({ d with q := some (.propose id bs) :: d.q, acc := d.acc + total bs, known := id :: d.known }, "accept")
     | _, _ => (d, "bad-op")
   | ["review", id, m, r] =>
     match nat? id, nat? m with
-    | some id, some m => if id ∈ d.known then ({ d with q := .review id m (r == "a") :: d.q }, "queued") else (d, "noprop")
+    | some id, some m => if id ∈ d.known then ({ d with q := some (.review id m (r == "a")) :: d.q }, "queued") else (d, "noprop")
     | _, _ => (d, "bad-op")
   | ["rejvotes", id, a] =>
     match nat? id, int? a with
@@ -94,15 +100,27 @@ def stepC29 (d : DS) (toks : List String) : DS × String :=
     | some id, some k, some st =>
       match check d.P d.s d.acc (.track id k st) with
       | some e => (d, "reject " ++ e)
-      | none => ({ d with q := .track id k st :: d.q }, "accept")
+      | none => ({ d with q := some (.track id k st) :: d.q }, "accept")
     | _, _, _ => (d, "bad-op")
   | ["withdraw", id, a] =>
     match nat? id, int? a with
     | some id, some a =>
       match check d.P d.s d.acc (.withdraw id a) with
       | some e => (d, "reject " ++ e)
-      | none => ({ d with q := .withdraw id a :: d.q }, "accept")
+      | none => ({ d with q := some (.withdraw id a) :: d.q }, "accept")
     | _, _ => (d, "bad-op")
+  | ["withdraw0", id, inp, out0, out1, toC, _] =>
+    match nat? id, int? inp, int? out0 with
+    | some id, some inp, some out0 =>
+      let o1 : Option (Option (Int × Bool)) :=
+        if out1 = "-" then some none else (int? out1).map (fun v => some (v, toC == "1"))
+      match o1 with
+      | none => (d, "bad-op")
+      | some o1 =>
+        match check d.P d.s d.acc (.withdraw0 id inp out0 o1) with
+        | some e => (d, "reject " ++ e)
+        | none => ({ d with q := some (.withdraw0 id inp out0 o1) :: d.q }, "accept")
+    | _, _, _ => (d, "bad-op")
   | _ => (d, "bad-op")
 
 def main : IO Unit := run stepC29 {}
